@@ -204,7 +204,7 @@ def gen_cases(tier, rng):
     quick = tier == "quick"
     fracs = FRACS_Q if quick else FRACS_T
     dimsA = [1, 2, 3, 5] if quick else [1, 2, 3, 4, 5, 7]
-    vshapes = list(grid_shapes([1, 2, 3], dimsA)) + [tuple(rng.choice([1, 2, 3, 4, 6, 9]) for _ in range(o)) for o in (4, 4, 5, 5, 6) for _ in range(3 if quick else 20)]
+    vshapes = list(grid_shapes([1, 2, 3], dimsA)) + [capped_shape(rng, o, [1, 2, 3, 4, 6, 9], 4000) for o in (4, 4, 5, 5, 6) for _ in range(3 if quick else 20)]
     # ---- validators
     for s in vshapes:
         n = len(s)
@@ -278,6 +278,14 @@ def gen_cases(tier, rng):
 
 def prod(s):
     return int(np.prod(s)) if len(s) else 1
+
+
+def capped_shape(rng, order, dims, cap):
+    """random shape whose number of entries stays below cap (the model computes products in unary nat)"""
+    while True:
+        s = tuple(rng.choice(dims) for _ in range(order))
+        if prod(s) <= cap:
+            return s
 
 
 def oracle_for(case):
@@ -521,34 +529,81 @@ def pred_structure(case, shapes, out):
 
 # --- normalisation contract
 CPFUNS = ("parafac", "non_negative_parafac", "non_negative_parafac_hals")
+DRIVER = {"parafac": "Parafac", "non_negative_parafac": "NnMu", "non_negative_parafac_hals": "NnHals"}
+INITK = {"random": "InitRandom", "svd": "InitSvd", "user": "InitUser"}
+
+
+class NormSpy:
+    """harness-level interposition (no source hook): every binding of cp_tensor.cp_normalize inside the tensorly modules
+    is replaced by a wrapper that remembers the outputs, for the duration of one call"""
+
+    def __enter__(self):
+        import sys
+        import tensorly.cp_tensor as cpm
+        self.orig = cpm.cp_normalize
+        self.outputs = []
+        orig, outputs = self.orig, self.outputs
+
+        def spy(cp_tensor):
+            r = orig(cp_tensor)
+            outputs.append(r)
+            return r
+        self.spy = spy
+        self.patched = []
+        for name, mod in list(sys.modules.items()):
+            if name.startswith("tensorly") and mod is not None and getattr(mod, "cp_normalize", None) is orig:
+                setattr(mod, "cp_normalize", spy)
+                self.patched.append(mod)
+        return self
+
+    def __exit__(self, *a):
+        for mod in self.patched:
+            setattr(mod, "cp_normalize", self.orig)
+        return False
 
 
 def run_norm_case(nc):
-    """nc: dict(fn, shape, rank, seed, init, n_iter_max, tol, normalize_factors, callback) -> (status, out, last_state)"""
+    """nc: dict(fn, shape, rank, seed, init, n_iter_max, tol, normalize_factors, callback, cb_stop, fixed)
+    -> dict(st, out, last, X, errors, n_norm, ends_norm, cb_fired)"""
     from tensorly import decomposition as D
+    from tensorly.cp_tensor import CPTensor
     fn = {"parafac": D.parafac, "non_negative_parafac": D.non_negative_parafac,
           "non_negative_parafac_hals": D.non_negative_parafac_hals}[nc["fn"]]
     r = np.random.RandomState(nc["seed"])
-    s, R = nc["shape"], nc["rank"]
+    s, R = tuple(nc["shape"]), nc["rank"]
     # exact positive low-rank data plus a little noise: well conditioned for all three drivers
     fs = [r.random_sample((d, R)) + 0.2 for d in s]
     X = np.einsum(*[x for k, f in enumerate(fs) for x in (f, [k, len(s)])], list(range(len(s)))) + 0.01 * r.random_sample(s)
     init = nc["init"]
     if init == "user":
         init = (r.random_sample(R) + 0.5, [r.random_sample((d, R)) + 0.3 for d in s])
-    kw = dict(n_iter_max=nc["n_iter_max"], tol=nc["tol"], normalize_factors=nc["normalize_factors"], init=init)
-    if nc["fn"] != "non_negative_parafac_hals" or True:
-        kw["random_state"] = nc["seed"]
-    states = []
-    if nc.get("callback") and nc["fn"] == "parafac":
+    kw = dict(n_iter_max=nc["n_iter_max"], tol=nc["tol"], normalize_factors=nc["normalize_factors"], init=init,
+              random_state=nc["seed"], return_errors=True)
+    if nc.get("fixed"):
+        kw["fixed_modes"] = list(nc["fixed"])
+    states, fired = [], [False]
+    cb_stop = nc.get("cb_stop")
+    if nc["fn"] == "parafac" and (nc.get("callback") or cb_stop is not None):
         def cb(cp, err):
             states.append((np.array(cp.weights, copy=True), [np.array(f, copy=True) for f in cp.factors]))
+            # the first call happens before the loop; call k+1 follows sweep k
+            if cb_stop is not None and len(states) - 2 == cb_stop:
+                fired[0] = True
+                return True
+            return None
         kw["callback"] = cb
-        kw["return_errors"] = True      # parafac needs tol or return_errors for the error it hands to the callback
-    st, out = C.call_impl(fn, X, R, **kw)
-    if st == "ok" and "callback" in kw:
-        out = out[0]
-    return st, out, (states[-1] if states else None), X
+    with NormSpy() as spy:
+        st, out = C.call_impl(fn, X, R, timeout=60, **kw)
+    errors = None
+    if st == "ok" and not isinstance(out, CPTensor):
+        out, errors = out
+    res = dict(st=st, out=out, last=(states[-1] if states else None), X=X, errors=errors, n_norm=len(spy.outputs),
+               ends_norm=False, cb_fired=fired[0])
+    if st == "ok" and spy.outputs:
+        lw, lf = spy.outputs[-1]
+        res["ends_norm"] = bool(np.array_equal(lw, out.weights) and len(lf) == len(out.factors)
+                                and all(np.array_equal(a, b) for a, b in zip(lf, out.factors)))
+    return res
 
 
 def cp_full(w, fs):
@@ -559,7 +614,8 @@ def cp_full(w, fs):
     return np.einsum(w, [n], *args, list(range(n)))
 
 
-def pred_norm(nc, st, out, last, X):
+def pred_norm(nc, res):
+    st, out, last = res["st"], res["out"], res["last"]
     if st != "ok":
         return f"raised: {out}", "C08_norm_runs"
     w, fs = out.weights, out.factors
@@ -584,27 +640,101 @@ def pred_norm(nc, st, out, last, X):
     return None
 
 
+def norm_decisions(nc, res):
+    """the decision sequence of this run (answer tape for the model) and whether the number of sweeps is observable"""
+    n, tol, cb = nc["n_iter_max"], nc["tol"], nc.get("cb_stop")
+    errors = res["errors"]
+    all_fixed = nc["fn"] == "parafac" and list(nc.get("fixed") or []) == list(range(len(nc["shape"])))
+    obs = errors is not None and not all_fixed and (nc["fn"] == "parafac" or bool(tol))
+    if not tol:
+        dec = [(False, False)] * n
+    elif tol >= 1e9:
+        dec = [(False, True)] * n                # the convergence test fires as soon as it is evaluated (iteration >= 1)
+    else:
+        # data dependent: read the exit off the implementation's own error list
+        k = len(errors) if errors is not None else n
+        dec = [(False, False)] * n
+        if k < n and not res["cb_fired"] and k >= 1:
+            dec[k - 1] = (False, True)
+    if cb is not None and cb < n and nc["fn"] == "parafac":
+        if tol and tol < 1e9:
+            if res["cb_fired"]:
+                dec[cb] = (True, dec[cb][1])
+        else:
+            dec[cb] = (True, dec[cb][1])
+    return dec, obs
+
+
+def norm_case_lit(cid, nc, res):
+    dec, obs = norm_decisions(nc, res)
+    dl = "[" + "; ".join(f"({C.boolc(a)}, {C.boolc(b)})" for a, b in dec) + "]" if dec else "(@nil (bool * bool))"
+    op = (f"(DNorm {DRIVER[nc['fn']]} {C.boolc(nc['normalize_factors'])} {C.boolc(bool(nc['tol']))} {INITK[nc['init']]} "
+          f"{C.nat(len(nc['shape']))} {C.nat_list(list(nc.get('fixed') or []))} {C.nat(nc['n_iter_max'])} {dl} {C.boolc(obs)})")
+    sweeps = len(res["errors"]) if obs else 0
+    exp = f"(Ok [[{sweeps}]%nat; [{1 if res['ends_norm'] else 0}]%nat; [{1 if res['n_norm'] else 0}]%nat])"
+    return f"({cid}%nat, {op}, {exp})"
+
+
 def norm_cases(tier, rng):
     quick = tier == "quick"
     shapes = [(3, 4, 2), (4, 3), (2, 3, 2, 3)] if quick else [(3, 4, 2), (4, 3), (2, 3, 2, 3), (5, 4, 3), (1, 4, 3), (6, 2), (3, 3, 3, 2)]
     iters = [0, 1, 2, 3, 6]
+    base = dict(cb_stop=None, fixed=None)
     for fn in CPFUNS:
         for s in shapes:
             for R in ((2,) if quick else (1, 2, 3)):
                 for init in ("random", "svd", "user"):
                     for nf in (True, False):
-                        for tol in (1e10, 0):           # huge: stops by convergence at iteration 1 ; 0: runs to the cap
+                        for tol in (1e10, 0, 1e-3):       # huge: stops by convergence at iteration 1 ; 0: runs to the cap ; 1e-3: data dependent
                             for nit in iters:
                                 if quick and (s != shapes[0]) and nit in (3, 6):
                                     continue
-                                yield dict(fn=fn, shape=s, rank=R, seed=rng.randrange(10 ** 6), init=init, n_iter_max=nit,
+                                if tol == 1e-3 and (nit < 3 or (quick and rng.random() < 0.5)):
+                                    continue
+                                yield dict(base, fn=fn, shape=s, rank=R, seed=rng.randrange(10 ** 6), init=init, n_iter_max=nit,
                                            tol=tol, normalize_factors=nf, callback=(fn == "parafac" and rng.random() < 0.5))
+    # third exit of parafac: the callback asks to stop after sweep cb_stop
+    for s in shapes[:2] if quick else shapes:
+        for init in ("random", "svd", "user"):
+            for nf in (True, False):
+                for tol in (1e10, 0, 1e-3):
+                    for nit, cb in ((1, 0), (3, 0), (3, 1), (3, 2), (4, 3), (2, 5)):
+                        if quick and rng.random() < 0.5:
+                            continue
+                        yield dict(base, fn="parafac", shape=s, rank=2, seed=rng.randrange(10 ** 6), init=init, n_iter_max=nit, tol=tol,
+                                   normalize_factors=nf, callback=True, cb_stop=cb)
+    # fixed modes (parafac returns the initialisation when every mode is fixed; the last mode cannot be fixed otherwise)
+    for fn in CPFUNS:
+        for s in shapes[:2] if quick else shapes[:4]:
+            n = len(s)
+            fixes = [[0], list(range(n)), [n - 1]] + ([[0, 1]] if n > 2 else [])
+            for fx in fixes:
+                if fn == "non_negative_parafac_hals" and len(fx) == n:
+                    continue                    # HALS with every mode fixed has no mode to evaluate the error on
+                for init in ("random", "user"):
+                    for nf in (True, False):
+                        for tol, nit in ((0, 2), (1e10, 3), (0, 0)):
+                            if quick and rng.random() < 0.4:
+                                continue
+                            yield dict(base, fn=fn, shape=s, rank=2, seed=rng.randrange(10 ** 6), init=init, n_iter_max=nit, tol=tol,
+                                       normalize_factors=nf, callback=False, fixed=fx)
 
 
-# known finding: a user-supplied initialisation is returned as is when no sweep is executed
+# known findings: with normalize_factors=True ...
+def _all_fixed(i):
+    return i.get("fn") == "parafac" and list(i.get("fixed") or []) == list(range(len(i.get("shape", []))))
+
+
 def clf_user_init_no_sweep(f):
+    """... a user-supplied initialisation is returned as is when no sweep is executed (cap 0, or parafac with every mode fixed)"""
     i = f["inputs"]
-    return i.get("init") == "user" and i.get("n_iter_max") == 0 and i.get("normalize_factors") is True
+    return i.get("init") == "user" and i.get("normalize_factors") is True and (i.get("n_iter_max") == 0 or _all_fixed(i))
+
+
+def clf_callback_stop(f):
+    """... parafac returns the un-normalised iterate when its callback asks to stop"""
+    i = f["inputs"]
+    return i.get("fn") == "parafac" and i.get("normalize_factors") is True and i.get("cb_fired") is True and not _all_fixed(i)
 
 
 def clf_tr_rotation(f):
@@ -613,7 +743,27 @@ def clf_tr_rotation(f):
     return i.get("kind") == "DTr" and i.get("kw", {}).get("mode", 0) >= 2 and isinstance(spec, (list, tuple)) and len(set(spec)) > 1
 
 
-CLASSIFIERS = {"user_init_and_no_sweep": clf_user_init_no_sweep, "tr_mode_ge_2_nonconstant_rank": clf_tr_rotation}
+CLASSIFIERS = {"user_init_and_no_sweep": clf_user_init_no_sweep, "callback_stop_not_normalised": clf_callback_stop,
+               "tr_mode_ge_2_nonconstant_rank": clf_tr_rotation}
+
+
+def _install_known_loader():
+    """known_findings.json is assembled by the coordinator from known_findings.d/*.json; read this property's own
+    snippet as well so that the classification does not depend on when that merge last ran (local helper)"""
+    import json, os
+    orig = C.load_known
+
+    def load(prop):
+        known = list(orig(prop))
+        fn = os.path.join(C.VERIF, "known_findings.d", f"{prop}.json")
+        if os.path.exists(fn):
+            ids = {k.get("id") for k in known}
+            for k in json.load(open(fn)).get("findings", []):
+                if k.get("property") == prop and k.get("id") not in ids:
+                    known.append(k)
+        return known
+    C.load_known = load
+    return orig
 
 
 # ----------------------------------------------------------------------------- driver
@@ -621,8 +771,16 @@ def run(chk):
     rng = random.Random(chk.seed)
     chk.build_proofs()
     C.reset_backends()
+    orig_loader = _install_known_loader()
+    try:
+        return _run(chk, rng)
+    finally:
+        C.load_known = orig_loader
+
+
+def _run(chk, rng):
     tier = chk.tier
-    cases, meta, skipped = [], [], 0
+    cases, meta, skipped, timeouts = [], [], 0, 0
     for case in gen_cases(tier, rng):
         kind, s, spec, kw = case["kind"], case["shape"], case["spec"], case["kw"]
         case["seed"] = rng.randrange(10 ** 6)
@@ -635,11 +793,14 @@ def run(chk):
             skipped += 1          # a validated rank of 0 is outside the model (the validators themselves are compared on it)
             continue
         if kind.startswith("V"):
-            st, v = C.call_impl(obs_validator, kind, s, pyspec, **kw)
+            st, v = C.call_impl(obs_validator, kind, s, pyspec, timeout=60, **kw)
             shapes, out = (v, None) if st == "ok" else (None, None)
         else:
-            st, v = C.call_impl(run_decomp, kind, s, pyspec, case["seed"], **kw)
+            st, v = C.call_impl(run_decomp, kind, s, pyspec, case["seed"], timeout=60, **kw)
             shapes, out = v if st == "ok" else (None, None)
+        if st != "ok" and str(v) == "timeout":
+            timeouts += 1         # loaded machine: never a verdict
+            continue
         if st != "ok" and str(v).startswith("LinAlgError"):
             skipped += 1          # numerically singular sub-problem (data dependent), not a structural outcome
             continue
@@ -660,28 +821,44 @@ def run(chk):
                 msg, pred = r
                 chk.finding(ENTRY[kind], dict(kind=kind, shape=list(s), spec=(list(spec) if isinstance(spec, tuple) else spec), kw=kw, seed=case["seed"]), msg, pred,
                             observed=[list(x) for x in shapes])
-    failing, n_eval, broken = C.run_case_shards("C08", HEADER, "case", cases, shard=400)
+    # ---- normalisation contract: every exit (cap incl. 0 and 1, convergence, callback stop, all modes fixed)
+    n_norm = 0
+    for nc in corpus_norm_cases() + list(norm_cases(tier, rng)):
+        res = run_norm_case(nc)
+        if res["st"] != "ok" and str(res["out"]) == "timeout":
+            timeouts += 1
+            continue
+        n_norm += 1
+        exit_kind = ("all_fixed" if _all_fixed(nc) else "callback" if res["cb_fired"] else "cap0" if nc["n_iter_max"] == 0 else
+                     "convergence" if (res["errors"] is not None and nc["tol"] and len(res["errors"]) < nc["n_iter_max"]) else "cap")
+        chk.count(key=("norm", nc["fn"], nc["shape"], nc["rank"], nc["init"], nc["n_iter_max"], nc["tol"], nc["normalize_factors"],
+                       nc.get("cb_stop"), tuple(nc.get("fixed") or ())))
+        chk.hist("norm_exit", exit_kind)
+        if res["st"] == "ok":
+            cid = len(cases)
+            cases.append(norm_case_lit(cid, nc, res))
+            meta.append(dict(kind="DNorm", shape=nc["shape"], spec=nc["rank"], kw={k: v for k, v in nc.items() if k not in ("shape", "rank")}))
+        r = pred_norm(nc, res)
+        if r:
+            msg, pred = r
+            inputs = {k: (list(v) if isinstance(v, tuple) else v) for k, v in nc.items()}
+            inputs["cb_fired"] = res["cb_fired"]
+            out = res["out"]
+            chk.finding(f"tensorly.decomposition.{nc['fn']}", inputs, msg, pred,
+                        observed=None if res["st"] != "ok" else {"weights": out.weights, "column_norms": [np.linalg.norm(f, axis=0) for f in out.factors]})
+    failing, n_eval, broken = C.run_case_shards("C08", HEADER, "case", cases, shard=300, timeout=900)
     chk.checker_cmds.append("coqc (vm_compute) on generated build/cases/C08/*.v: Corr.C08.failing")
     for b in broken:
         chk.broken.append({"what": "correspondence corr:C08 shard not evaluated", "detail": b})
     for i in sorted(failing):
         m = meta[i]
-        chk.disagreement("corr:C08 (Model/Structure.v vs rank validators / decomposition shape flow)",
-                         {"entry": ENTRY[m["kind"]], "shape": list(m["shape"]), "rank": str(m["spec"]), "options": {k: str(v) for k, v in m["kw"].items()}, "case": cases[i][:400]})
-    # ---- normalisation contract, both stopping paths
-    n_norm = 0
-    for nc in norm_cases(tier, rng):
-        st, out, last, X = run_norm_case(nc)
-        n_norm += 1
-        chk.count(key=("norm", nc["fn"], nc["shape"], nc["rank"], nc["init"], nc["n_iter_max"], nc["tol"], nc["normalize_factors"]))
-        chk.hist("norm_exit", "cap0" if nc["n_iter_max"] == 0 else ("convergence" if nc["tol"] and nc["n_iter_max"] >= 2 else "cap"))
-        r = pred_norm(nc, st, out, last, X)
-        if r:
-            msg, pred = r
-            chk.finding(f"tensorly.decomposition.{nc['fn']}", {k: (list(v) if isinstance(v, tuple) else v) for k, v in nc.items()}, msg, pred,
-                        observed=None if st != "ok" else {"weights": out.weights, "column_norms": [np.linalg.norm(f, axis=0) for f in out.factors]})
+        what = ("corr:C08 (Model/Structure.v cp_run vs control flow of the CP drivers)" if m["kind"] == "DNorm" else
+                "corr:C08 (Model/Structure.v vs rank validators / decomposition shape flow)")
+        chk.disagreement(what, {"entry": ENTRY.get(m["kind"], "tensorly.decomposition." + str(m["kw"].get("fn"))), "shape": list(m["shape"]), "rank": str(m["spec"]),
+                                "options": {k: str(v) for k, v in m["kw"].items()}, "case": cases[i][:400]})
     chk.cov["traces_validated_against_impl"] = n_eval
     chk.cov["skipped_ill_conditioned"] = skipped
+    chk.cov["skipped_timeouts"] = timeouts
     chk.cov["normalisation_runs"] = n_norm
     chk.cov["exhaustive"] = False
     chk.cov["rule"] = ("shape correspondence: every shape of order 1-3 over a small set of mode sizes (+ random order 4-6 shapes) x every validator x "
@@ -689,15 +866,34 @@ def run(chk):
                        "every decomposition (tensor_train, tensor_train_matrix, tensor_ring x every mode, tucker x init x n_iter, parafac / non_negative_parafac / "
                        "non_negative_parafac_hals, parafac2, tensor_ring_als, CMTF) on shapes of order 2-5 over mode sizes {1,2,3(,4)}; fractions whose "
                        "rounded product lies within 1e-8 of a rounding boundary are skipped (counted); normalisation contract: 3 drivers x shapes x "
-                       "init {random, svd, user} x normalize on/off x tol {1e10 (convergence exit), 0 (cap exit)} x n_iter_max {0,1,2,3,6}; "
+                       "init {random, svd, user} x normalize on/off x tol {1e10 (convergence exit at iteration 1), 0 (cap exit), 1e-3 (data dependent)} x "
+                       "n_iter_max {0,1,2,3,6}, plus parafac callback stops after sweep 0..3 and fixed_modes (one, several, last, all); each run is also "
+                       "compared with the model's control flow (Corr.C08 DNorm: sweeps executed, result is a cp_normalize output, cp_normalize applied at all); "
                        "distinct key = (entry point, shape, rank spec, options); non-trivial = more than one tensor entry")
     chk.assumptions = ["np.round/np.floor/np.ceil on the generated dyadic fractions are exact (products below 2^53, quotient at least 1e-8 from a rounding boundary or exactly on it)",
                        "rank 0 and size-0 modes are outside the model",
                        "truncated_svd is the SVD method (the shape model of svd_interface covers method='truncated_svd')"]
     chk.trusted += ["oracles: root of the Tucker parameter-count polynomial (brentq in the code, exact bisection in the harness) and the TT quadratic root "
                     "(closed form in the code, 40-digit integer square root in the harness); their defining equations are re-evaluated on the answer inside Coq (Corr.C08.oracle_ok)",
-                    "LAPACK SVD / solve / lstsq inside the decompositions are not modelled: only shapes flow through the model; orthonormality is checked on the implementation's outputs by the Python predicates (tolerance 1e-8) and proved over R from the SVD contract"]
+                    "LAPACK SVD / solve / lstsq inside the decompositions are not modelled: only shapes flow through the model; orthonormality is checked on the implementation's outputs by the Python predicates (tolerance 1e-8) and proved over R from the SVD contract",
+                    "the decision sequence of a CP run (callback answers, convergence test outcomes) is taken from the implementation (answer tape); cp_normalize calls are observed by rebinding the module attribute from the harness"]
     return chk.finish(CLASSIFIERS)
+
+
+def corpus_norm_cases():
+    """minimised past failing inputs (corpus/C08/*.json), run first"""
+    import glob, json, os
+    out = []
+    for fn in sorted(glob.glob(os.path.join(C.VERIF, "corpus", "C08", "*.json"))):
+        try:
+            d = json.load(open(fn))
+        except Exception:
+            continue
+        for nc in d.get("norm_cases", []):
+            nc = dict(nc); nc["shape"] = tuple(nc["shape"])
+            nc.setdefault("cb_stop", None); nc.setdefault("fixed", None); nc.setdefault("callback", False)
+            out.append(nc)
+    return out
 
 
 def replay(payload):
@@ -707,15 +903,15 @@ def replay(payload):
     C.reset_backends()
     inp = payload["inputs"]
     if "fn" in inp and "normalize_factors" in inp:
-        nc = dict(inp); nc["shape"] = tuple(nc["shape"])
-        st, out, last, X = run_norm_case(nc)
-        r = pred_norm(nc, st, out, last, X)
+        nc = dict(inp); nc["shape"] = tuple(nc["shape"]); nc.pop("cb_fired", None)
+        res = run_norm_case(nc)
+        r = pred_norm(nc, res)
     else:
         spec = inp["spec"]
         case = dict(kind=inp["kind"], shape=tuple(tuple(x) if isinstance(x, list) else x for x in inp["shape"]),
                     spec=tuple(spec) if isinstance(spec, list) else spec, kw=inp["kw"], seed=inp["seed"])
         pyspec = list(spec) if isinstance(spec, (list, tuple)) else spec
-        st, v = C.call_impl(run_decomp, case["kind"], case["shape"], pyspec, case["seed"], **case["kw"])
+        st, v = C.call_impl(run_decomp, case["kind"], case["shape"], pyspec, case["seed"], timeout=120, **case["kw"])
         if st != "ok":
             print("replay: raised", v)
             return 1
